@@ -1,4 +1,5 @@
 import Starcal.ZoneModel
+import Starcal.FloatStdZone
 /-! # C10 — an instant's day number is that of its local civil date, in every time zone
 
 The theorems hold for EVERY zone value `z : TZ` (any list of period boundaries and offsets), hence
@@ -92,5 +93,17 @@ example (L : Int) (hL : -1000000000000 ≤ L ∧ L ≤ 1000000000000) :
     have e62 : (2 : Int) ^ 62 = 4611686018427387904 := by decide
     rw [e62] at h1
     omega
+
+/-! ### the float expression of GetJdByEpoch
+
+`GetJdByEpoch` is `int(math.Floor(float64(J1970) + float64(epoch+offset)/86400.0))`; the model `getJdByEpoch` uses the
+integer floor division. Under the standard model of floating-point arithmetic (FloatStd.lean: any rounding function with
+relative error ≤ 2^-53, exact on half-integers) the float code returns exactly that integer, for every zone value and
+every instant within 4000 years of 1970. -/
+theorem C10_jd_by_epoch_float_code_is_model (rnd : Rat → Rat) (h : FloatStd.StdModel rnd) (z : TZ) (e : Int)
+    (h0 : -137438953472 < e + off z e) (h1 : e + off z e < 137438953472) :
+    FloatStd.jdByEpochR rnd (e + off z e) = getJdByEpoch z e := by
+  rw [FloatStd.jdByEpochR_eq rnd h _ h0 h1]
+  rfl
 
 end Starcal.Props
